@@ -189,6 +189,101 @@ def shared_dir_stream(ctx, n, off=0, collect=True):
     return first
 
 
+def script_case(idx, payload):
+    """the toolbox written by scripts/matlab_wrap.py for a LIST of interface files (`--src "a.i;b.i;c.i"`, as MatlabWrap.cmake
+    calls it): ids, cases and routines of the one gateway it leaves behind agree with all the .m files"""
+    import os
+    import shutil
+    import subprocess
+    import sys
+    import tempfile
+    from common import REPO
+    seed, _ = payload
+    texts = multifile_texts(seed + 13, idx)
+    res = dict(idx=idx, text="\x1e".join(texts), bad=None, ran=False)
+    if impl_matlab(texts, "mymod", [], False)[0] != "ok":
+        return res
+    d = tempfile.mkdtemp(prefix="verif_c05x_")
+    try:
+        names = []
+        for k, t in enumerate(texts):
+            names.append("part%d.i" % k)
+            open(os.path.join(d, names[-1]), "w", encoding="utf-8").write(t)
+        r = subprocess.run([sys.executable, os.path.join(REPO, "scripts", "matlab_wrap.py"), "--src", ";".join(names), "--module_name", "mymod", "--out", "tb"],
+                           cwd=d, capture_output=True, text=True, timeout=180, env=dict(os.environ, PYTHONPATH=REPO))
+        res["ran"] = True
+        if r.returncode != 0:
+            res["bad"] = "the API accepts the list of files, the script fails: " + r.stderr[-200:]
+            return res
+        files = {}
+        for root, _, fs in os.walk(os.path.join(d, "tb")):
+            for fn in fs:
+                files[os.path.relpath(os.path.join(root, fn), os.path.join(d, "tb"))] = open(os.path.join(root, fn), encoding="utf-8").read()
+        p = pj.dispatch_problems(files, "mymod")
+        if p:
+            res["bad"] = p[0]
+    finally:
+        shutil.rmtree(d, ignore_errors=True)
+    return res
+
+
+def typedef_ns_case(idx, payload):
+    """typedef instantiations written in OTHER namespaces than their template (nested namespaces after it), the same new
+    name in several of them: every instantiation keeps its own classdef file, ids, cases and routines"""
+    import random
+    seed, _ = payload
+    rng = random.Random(seed * 1000003 + idx + 929292)
+    tname = rng.choice(["Cam", "Box", "Filter"])
+    virt = "virtual " if rng.random() < 0.5 else ""
+    mem = ["%s();" % tname] + rng.sample(["%s(int n);" % tname, "C cal() const;", "void set(const C& c);", "static This Make(int seed);", "double error(double tol = 1e-9) const;", "int level;"],
+                                        rng.randint(1, 4))
+    subs = rng.sample(["mono", "stereo", "wide"], rng.randint(2, 3))
+    alias = rng.choice(["Camera", "Model"])
+    same = rng.random() < 0.7
+    args = ["double", "int", "geometry::Cal"]
+    blocks = []
+    for k, sn in enumerate(subs):
+        extra = rng.choice(["", "class Rig%d { Rig%d(); void add(int n); };" % (k, k), "double span%d(double x);" % k])
+        first = rng.random() < 0.7
+        td = "typedef geometry::%s<%s> %s;" % (tname, args[k % 3], alias if same else alias + str(k))
+        blocks.append("namespace %s { %s }" % (sn, (td + " " + extra) if first else (extra + " " + td)))
+    text = "namespace geometry {\nclass Cal { Cal(); };\ntemplate<C>\n%sclass %s { %s };\n%s\n}\n" % (virt, tname, " ".join(mem), "\n".join(blocks))
+    res = dict(idx=idx, text=text, bad=None, ran=False)
+    st, out = impl_matlab([text], "mymod", [], False)
+    if st != "ok":
+        res["ran"] = True
+        res["bad"] = "typedef instantiations in nested namespaces are rejected (%s)" % out
+        return res
+    res["ran"] = True
+    p = pj.dispatch_problems(out, "mymod")
+    if p:
+        res["bad"] = p[0]
+        return res
+    want = {"+geometry/+%s/%s.m" % (sn, alias if same else alias + str(k)) for k, sn in enumerate(subs)}
+    missing = sorted(want - set(out))
+    if missing:
+        res["bad"] = "classdef file(s) %s of typedef instantiations are missing; files: %s" % (missing, sorted(k for k in out if k.endswith(".m"))[:8])
+    return res
+
+
+def extra_stream(ctx, fn, tag, what, n, off=0, collect=True):
+    first = None
+    for r in fw.run_cases(fn, [(ctx.seed + off, None)] * n):
+        if "crash" in r:
+            raise RuntimeError(r["crash"])
+        if collect:
+            ctx.case(tag + r["text"], nontrivial=r["ran"], sample=None)
+            ctx.count(tag + ("_toolboxes" if r["ran"] else "_skipped"))
+        if r["bad"]:
+            v = dict(what=what + r["bad"], files=r["text"].split("\x1e"))
+            first = first or v
+            if collect:
+                ctx.spec_fail(v["what"], files=v["files"])
+        elif collect and r["ran"]:
+            ctx.traces_validated += 1
+    return first
+
+
 def multifile_stream(ctx, n, off=0, collect=True):
     first = None
     for r in fw.run_cases(multifile_case, [(ctx.seed + off, None)] * n):
@@ -244,6 +339,8 @@ def main(ctx):
     reuse_stream(ctx, ctx.scale(50, 600))
     multifile_stream(ctx, ctx.scale(60, 800))
     shared_dir_stream(ctx, ctx.scale(40, 500))
+    extra_stream(ctx, script_case, "script", "toolbox written by scripts/matlab_wrap.py for a list of files: ", ctx.scale(16, 200))
+    extra_stream(ctx, typedef_ns_case, "typedef_ns", "typedef instantiations in nested namespaces: ", ctx.scale(40, 500))
     for e in ctx.known:
         w = e["witness"]
         st, out = impl_matlab([w["input"]], "mymod", [], False)
@@ -254,7 +351,7 @@ def main(ctx):
                 ctx.spec_fail("a defect recorded as fixed is back: " + e["what"], **w)
         elif still:
             ctx.known_hit(e)
-    return fw.finish(ctx, search=lambda c: search(c) or reuse_stream(c, c.scale(100, 600), off=3, collect=False) or multifile_stream(c, c.scale(60, 400), off=5, collect=False) or shared_dir_stream(c, c.scale(40, 300), off=7, collect=False), assumptions=["hand-written model of matlab_wrapper/wrapper.py, tied byte-exactly on generated inputs"])
+    return fw.finish(ctx, search=lambda c: search(c) or reuse_stream(c, c.scale(100, 600), off=3, collect=False) or multifile_stream(c, c.scale(60, 400), off=5, collect=False) or shared_dir_stream(c, c.scale(40, 300), off=7, collect=False) or extra_stream(c, script_case, 'script', 'toolbox written by scripts/matlab_wrap.py for a list of files: ', c.scale(16, 100), off=9, collect=False) or extra_stream(c, typedef_ns_case, 'typedef_ns', 'typedef instantiations in nested namespaces: ', c.scale(40, 300), off=9, collect=False), assumptions=["hand-written model of matlab_wrapper/wrapper.py, tied byte-exactly on generated inputs"])
 
 
 def replay(ctx, path):
